@@ -266,7 +266,8 @@ def coq_eval(name, header, body_chunks, timeout=600, jobs=8):
     files = []
     base = 0
     for k, chunk in enumerate(body_chunks):
-        fn = os.path.join(cdir, '%s_%d.v' % (name, k))
+        # unique per process: several checks (C03, C08, C09 share the worker cases) may run at once
+        fn = os.path.join(cdir, '%s_p%d_%d.v' % (name, os.getpid(), k))
         with open(fn, 'w') as fh:
             fh.write(header + '\n')
             fh.write('Definition cases_ := [\n' + ';\n'.join(chunk) + '\n].\n')
